@@ -252,5 +252,36 @@ def gen_translated():
     rs_tr = lambda: py2lean.Tr({}, calls={'len(name)': 'nameLen', 'len(dimensions)': 'ndims'})
     _emit(out, 'scalarRecordSize', '(nameLen : Int)', _whole(scalars.Scalars._record_size, rs_tr))
     _emit(out, 'arrayRecordSize', '(nameLen ndims : Int)', _whole(arrays.Arrays._record_size, rs_tr))
+
+    # ---------------------------------------------------------------------------------------------
+    # devices/diskfiles.py RandomFile: record arithmetic of eof / _set_record_pos / put  (C25)
+    # parameters: recpos = self._recpos, reclen = self.reclen, lof = self.lof()
+    from pcbasic.basic.devices import diskfiles
+    RFc = diskfiles.RandomFile
+    rfc = {'self._recpos': 'recpos', 'self.reclen': 'reclen'}
+    rf_tr = lambda **kw: (lambda: py2lean.Tr(dict(rfc), calls={'self.lof()': 'lof'}, **kw))
+    _emit(out, 'rfEof', '(recpos reclen lof : Int)', _whole(RFc.eof, rf_tr(ret_bool=True), fall='false'), typ='Bool')
+
+    def rf_seek_arg(method):
+        # the single `self._fhandle.seek(<expr>)` of the method: the byte offset the record is read/written at
+        def build():
+            fn = py2lean.function_ast(method)
+            seeks = [n for n in ast.walk(fn) if isinstance(n, ast.Call) and ast.unparse(n.func) == 'self._fhandle.seek'
+                     and len(n.args) == 1]
+            if len(seeks) != 1:
+                raise py2lean.Unsupported('expected exactly one one-argument seek, found %d' % len(seeks))
+            return py2lean.Tr(dict(rfc)).set_scope(method).expr(seeks[0].args[0])
+        return build
+
+    def rf_new_recpos():
+        # `self._recpos = <expr>` in _set_record_pos
+        fn = py2lean.function_ast(RFc._set_record_pos)
+        sts = [n for n in ast.walk(fn) if isinstance(n, ast.Assign) and ast.unparse(n.targets[0]) == 'self._recpos']
+        if len(sts) != 1:
+            raise py2lean.Unsupported('expected exactly one assignment to self._recpos')
+        return py2lean.Tr(dict(rfc)).set_scope(RFc._set_record_pos).expr(sts[0].value)
+    _emit(out, 'rfSeekOffset', '(pos reclen : Int)', rf_seek_arg(RFc._set_record_pos))
+    _emit(out, 'rfSeekRecpos', '(pos : Int)', rf_new_recpos)
+    _emit(out, 'rfPutOffset', '(recpos reclen : Int)', rf_seek_arg(RFc.put))
     out.append('end PcbV.Gen.Translated\n')
     return '\n'.join(out)
